@@ -144,7 +144,7 @@ PROPS = {
         text="Part 'teardown': one fault (read error, write error, five timeouts, link change) is injected into the running real advertiser / monitor, followed by every re-dial answer and optional cancellation, under every schedule within the deviation bound; the ordered seam log must show prompt, complete teardown, re-establishment or a reported error per the policy, and no I/O on the old connection. Part 'policy': every sequence of dial/task outcomes to the stated depth goes through the real Dialer and is compared with a 30-line reference state machine (attempt count, back-off values in virtual time, classification).",
         note="Fault alphabets are finite lists; the 17-request ipC saturation case is outside the bounds; classification of errors returned by retry dials is a don't-care (statement silent).",
         parts=[part("teardown", "internal/corerad", "TestVerifC10", mode="sched", gomaxprocs=2, shards={"quick": 12, "thorough": 16}),
-               part("policy", "internal/system", "TestVerifC11", shards={"quick": 8, "thorough": 16}),
+               part("policy", "internal/system", "TestVerifC11", mode="sched", gomaxprocs=2, shards={"quick": 8, "thorough": 16}),
                part("retry", "internal/corerad", "TestVerifC10Retry", mode="sched", gomaxprocs=2, shards={"quick": 4, "thorough": 8})],
     ),
     "C11": dict(
@@ -152,14 +152,15 @@ PROPS = {
         technique="depth-first enumeration of every environment answer sequence (dial, sysctl get/set/restore, task outcome, cancellation) with a bounded number of non-default answers through the real Dialer.Dial and the real dial(); invariants over the recorded call log",
         text="The real Dial loop, init back-off, dial(), setAutoconf and the cleanup closure run over fakes whose every answer is an explorer choice; all answer sequences with at most K non-default answers (K=2 quick, 3 thorough), for both modes, both initial sysctl values and 1-3 re-dial rounds, are executed; on each call log: every opened connection left the group and was closed exactly once before the next open and before return, the sysctl was written only while a connection was held and put back to the value read at that open, non-tolerated restore errors were reported, monitor mode never touched it.",
         note="Kernel, ndp.Listen and the sysctl files are fakes behind build-time seams (dial() itself is the real code). Sequences with more than K non-default answers are not covered.",
-        parts=[part("envdfs", "internal/system", "TestVerifC11", shards={"quick": 8, "thorough": 16})],
+        parts=[part("envdfs", "internal/system", "TestVerifC11", mode="sched", gomaxprocs=2, shards={"quick": 8, "thorough": 16})],
     ),
     "C17": dict(
         level="model_checking", engine="sched",
         technique="bounded-exhaustive enumeration of configurations x lifecycle points x State failures through the real Metrics scrape and debug-API handler (no panic, content = reference RA); delay-bounded schedule exploration of scrapes/API requests racing advertiser (re)initialisation on the instrumented real code",
         text="Part 'enum': every stanza kind alone / all together / all minus one, never prepared or prepared through the real Prepare, with readable or failing State and all debug flag combinations: a scrape, Series() and GET /_/api/interfaces, /metrics, /debug/pprof/ must never panic; when prepared, every sample and the JSON must equal the reference RA and cover every option kind; routes are 200 iff enabled. Part 'sched': a scraper and an API client run 1-2 requests each while the real advertiser starts (interface not ready once), advertises and re-initialises after a link change, under every schedule within the deviation bound: no panic, no hang, each completed request is either an error or equals an RA content valid at some point during the request.",
         note="The Prometheus registry and net/http server plumbing are bypassed (collect function and handler called directly). Plain data races between Prepare and a concurrent scrape are outside the statement and not gated.",
-        parts=[part("enum", "internal/corerad", "TestVerifC17", mode="sched")],
+        parts=[part("enum", "internal/corerad", "TestVerifC17", mode="sched"),
+               part("sched", "internal/corerad", "TestVerifC17Sched", mode="sched", gomaxprocs=2, shards={"quick": 8, "thorough": 16})],
     ),
     "C20": dict(
         level="model_checking", engine="sched",
